@@ -36,6 +36,13 @@ def cases(tier, seed):
         for k in range(K):
             d = dict(c); d["chunk"] = [k, K]
             out.append(d)
+    # scale: a domain 131072 cells long, so that box indices reach six digits (anything that compares
+    # index ranges with a relative tolerance, or formats them with a fixed width, shows only here)
+    for k in range(K):
+        out.append({"gen": dict(seed=seed + 77, ndims=2, nlevels=1, nfields=1, base=[131072, 2], bf=2, maxsz=16384,
+                                payload="random", nfiles=40, aniso=False),
+                    "fmt": {}, "sel_seed": seed * 17 + 999, "pairs": 2, "chunk": [k, K], "long": True,
+                    "only_ops": ["fabhdr", "idxline", "fod", "physbound", "truncate", "idxline_delete"]})
     if tier == "thorough":       # real AMReX output: a population the generator does not produce
         for a in ("plt1_Y", "plt2_F"):
             for k in range(8):
@@ -99,6 +106,9 @@ def run_case(case, work, rec):
         inf = mutate.info(path)
         finest = m.nlevels - 1
         sites = mutate.sites_c04(inf, coords=True)
+        if case.get("only_ops"):
+            sites = [x for x in sites if x["op"] in case["only_ops"]]
+            rec.count("six_digit_index_cases")
     dst = os.path.join(work, "mut")
 
     def nontrivial(mu):
